@@ -111,8 +111,8 @@ Section Life.
   Proof.
     intros Hwf Hp Hwo Hup Hlow Hfree.
     cbn [ovl_impl]. unfold bind_res at 1. rewrite run_bind, (read_path_rule hs lg ft s0 s1 p Hp).
-    rewrite bool_decide_eq_false_2 by (rewrite Hwo; intros [? ?]; discriminate).
     rewrite bool_decide_eq_false_2 by (rewrite Hup; intros [? ?]; discriminate).
+    rewrite bool_decide_eq_false_2 by (rewrite Hwo; intros [? ?]; discriminate).
     rewrite bool_decide_eq_true_2 by exact Hlow.
     unfold write_path. cbn [fst snd app]. unfold bind_res at 1. rewrite run_bind, exists0, Hup.
     rewrite bool_decide_eq_false_2 by (intros [? ?]; discriminate).
@@ -146,13 +146,15 @@ Section Life.
 
   (** and from then on the overlay does not see the file, although the lower layer still has it *)
   Corollary removed_file_is_absent (s1 s0' : mstate) (hs' : list hstate) (p : path) :
-    p <> [] -> is_Some (s0' !! whiteout_path top p) ->
+    p <> [] -> is_Some (s0' !! whiteout_path top p) -> s0' !! p = None ->
     run bhandler (ovl_exists top lower p) (S2 s0' s1 hs') = (S2 s0' s1 hs', Ok false) /\
     run bhandler (ovl_metadata top lower p) (S2 s0' s1 hs') = (S2 s0' s1 hs', fail ENotFound).
   Proof.
-    intros Hp Hm. split.
-    - rewrite (exists_rule hs' lg ft s0' s1 p Hp). rewrite bool_decide_eq_true_2 by exact Hm. reflexivity.
-    - rewrite (metadata_rule hs' lg ft s0' s1 p Hp). rewrite bool_decide_eq_true_2 by exact Hm. reflexivity.
+    intros Hp Hm Hn. split.
+    - rewrite (exists_rule hs' lg ft s0' s1 p Hp), Hn.
+      rewrite bool_decide_eq_false_2 by (intros [? ?]; discriminate).
+      rewrite bool_decide_eq_true_2 by exact Hm. reflexivity.
+    - rewrite (metadata_rule hs' lg ft s0' s1 p Hp), Hn. rewrite bool_decide_eq_true_2 by exact Hm. reflexivity.
   Qed.
 
   (** ** re-creating a deleted top-level file: the marker goes, the new file is empty - the bytes of the
@@ -169,11 +171,9 @@ Section Life.
     wf s0 -> s0 !! whiteout_path top [] = None ->
     run bhandler (ovl_ensure_has_parent top lower [n]) (S2 s0 s1 hs) = (S2 s0 s1 hs, Ok tt).
   Proof.
-    intros [(r & Hr & Hrt) Hpc] Hroot.
+    intros [(r & Hr & Hrt) Hpc] _.
     unfold ovl_ensure_has_parent. cbn [removelast]. unfold bind_res at 1. rewrite run_bind.
-    unfold ovl_exists at 1. unfold bind_res at 1. rewrite run_bind, exists0, Hroot.
-    rewrite bool_decide_eq_false_2 by (intros [? ?]; discriminate).
-    rewrite run_bind. cbn [read_path run fst snd]. rewrite exists0, Hr.
+    unfold ovl_exists at 1. rewrite run_bind. cbn [read_path run fst snd]. rewrite exists0, Hr.
     rewrite bool_decide_eq_true_2 by eauto.
     unfold bind_res at 1. rewrite run_bind. unfold ovl_metadata, bind_res at 1. rewrite run_bind. cbn [read_path run fst snd].
     rewrite md0, Hr. cbn [mem_meta m_type]. rewrite Hrt.
@@ -208,12 +208,13 @@ Section Life.
   Proof.
     intros Hpc Hp Hwo Hserved Hwdir Hd1 Hc Hcm.
     cbn [ovl_impl]. unfold bind_res at 1. rewrite run_bind, (read_path_rule hs lg ft s0 s1 p Hp).
-    rewrite bool_decide_eq_false_2 by (rewrite Hwo; intros [? ?]; discriminate).
     assert (Hok : exists lp, (if bool_decide (is_Some (s0 !! p)) then Ok (v0, p)
+                              else if bool_decide (is_Some (s0 !! whiteout_path top p)) then fail ENotFound
                               else if bool_decide (is_Some (s1 !! p)) then Ok (v1, p) else fail ENotFound) = Ok lp).
     { destruct Hserved as [(f & Hf & _)|[Hn (f & Hf & _)]].
       - rewrite bool_decide_eq_true_2 by eauto. eauto.
       - rewrite bool_decide_eq_false_2 by (rewrite Hn; intros [? ?]; discriminate).
+        rewrite bool_decide_eq_false_2 by (rewrite Hwo; intros [? ?]; discriminate).
         rewrite bool_decide_eq_true_2 by eauto. eauto. }
     destruct Hok as (lp & ->).
     destruct (read_dir_rule hs lg ft s0 s1 p Hpc Hp Hwo Hserved Hwdir) as (l & Hrun & Hl).
@@ -238,8 +239,9 @@ Section Life.
     pose proof (ensure_parent_root s0 s1 hs n (conj (ex_intro _ r (conj Hr Hrt)) Hpc) Hroot) as Hparent.
     rewrite Hparent.
     (* the target is deleted: it does not exist in the overlay *)
-    unfold bind_res at 1. rewrite run_bind, (exists_rule hs lg ft s0 s1 [n] ltac:(discriminate)), Hm.
-    rewrite bool_decide_eq_true_2 by eauto. cbn [negb andb].
+    unfold bind_res at 1. rewrite run_bind, (exists_rule hs lg ft s0 s1 [n] ltac:(discriminate)), Hm, Hup.
+    rewrite bool_decide_eq_false_2 by (intros [? ?]; discriminate).
+    rewrite bool_decide_eq_true_2 by eauto. cbn [negb andb orb].
     unfold bind_res at 1. rewrite run_bind. cbn [run].
     unfold bind_res at 1. rewrite run_bind.
     assert (Hrootdir : is_dir s0 (removelast [n])) by (cbn; exists r; auto).
@@ -264,7 +266,6 @@ Section Life.
   Proof.
     intros Hm s0'. rewrite (metadata_rule hs lg ft s0' s1 [n] ltac:(discriminate)).
     assert (Hne : whiteout_path top [n] <> [n]) by (unfold whiteout_path; cbn; discriminate).
-    unfold s0'. rewrite lookup_delete. rewrite bool_decide_eq_false_2 by (intros [? ?]; discriminate).
-    rewrite lookup_delete_ne by exact Hne. rewrite lookup_insert. reflexivity.
+    unfold s0'. rewrite lookup_delete_ne by exact Hne. rewrite lookup_insert. reflexivity.
   Qed.
 End Life.
